@@ -2,6 +2,8 @@
    clash keysf rs = true: some string is claimed (canonical or synonym) by two records at different positions. *)
 From Curies.model Require Import Str PyData Trie Conv Query Val Answer Spec CheckQ Loaders CheckL.
 From Curies.proofs Require Import StrFacts IndexFacts QueryFacts C04Facts.
+From Curies.model Require Import CheckL.
+From Curies.proofs Require Import PModelL.
 
 Theorem C04_iff : forall d rs, (exists c, mk_conv true d rs = Val c) <-> strictb rs = true.
 Proof. exact mk_conv_iff. Qed.
@@ -66,3 +68,8 @@ Example C04_nonvacuous :
   mk_conv true [58%N] [r [97] [104] [[98]] []; r [99] [105] [[98]] []]%N = Raise EDuplicatePrefixes /\
   mk_record [97]%N [104]%N [[97]]%N [] None = Raise ERecordValidation.
 Proof. vm_compute. auto. Qed.
+
+(* the executable predicate of the run accepts the model's own observation on every valid case (constructor and every loader) *)
+Theorem C04_P_model : forall k : lcase, valid_l k = true -> P_C04 k (model_lobs k) = true.
+Proof. exact P_C04_model. Qed.
+Print Assumptions C04_P_model.
